@@ -236,8 +236,32 @@ def deep_nesting_mutants(r, tabs):
     return out
 
 
+def open_region_mutants(r, tabs):
+    """Well-formed streams whose thread ends (OHe) inside an open region of each model (enter without
+    leave, one and two levels): `ovniemu -l` must refuse them in its finish path, without crashing there."""
+    out = []
+    pairs = L.model_pairs(tabs)
+    for m in sorted(pairs):
+        if m in ("ovni", "kernel"):
+            continue
+        for depth in (1, 2):
+            tr = L.seed_trace(r, tabs, "two")
+            for sidx in (0, 1):
+                s, evs = tr.streams[sidx]
+                s.meta["ovni"]["require"][m] = tabs[m]["version"]
+            s, evs = tr.streams[0]
+            k = len(evs) - 1
+            c = evs[k - 1].clock
+            evs[k:k] = [L.Ev(c + 1 + j, pairs[m][0]) for j in range(depth)] if depth == 1 or m in ("nosv", "nanos6") \
+                else [L.Ev(c + 1, pairs[m][0])]
+            for e in evs[k + depth:]:
+                e.clock = max(e.clock, c + 10)
+            out.append(Mut("open-region", f"{m}: thread ends inside {depth} open {pairs[m][0]}", tr, stream_level=False))
+    return out
+
+
 def all_mutants(r, tier, tabs, res):
-    muts = deep_nesting_mutants(r, tabs)
+    muts = deep_nesting_mutants(r, tabs) + open_region_mutants(r, tabs)
     mtr = multi_unsorted_seed(r, tabs)
     muts.append(Mut("control", "multi-stream unsorted seed", mtr))
     muts += stream_mutants(r, mtr, "quick", res)[:40]
